@@ -27,6 +27,17 @@ def _build(e, R, cls):
         return _build(e[1], R, cls).star()
     if t == "plus":
         return _build(e[1], R, cls).kleene_plus()
+    if t == "shared":
+        # ONE Python object used twice: after `X.star()` / `X.kleene_plus()` the operand X itself must be unchanged
+        X = _build(e[2], R, cls)
+        if e[1] == "x*star":
+            return X * X.star()
+        if e[1] == "plus+x":
+            P = X.kleene_plus()
+            return P + X
+        X.star()
+        X.kleene_plus()
+        return X
     if t == "reverse":
         return _build(e[1], R, cls).reverse
     if t == "rename":
@@ -123,6 +134,19 @@ def ev(e, x, leafw, alg, memo):
         r = plus(e[1], x, leafw, alg, memo)
         if t == "star" and not x:
             r = alg.add(alg.one, r)
+    elif t == "shared":
+        a = e[2]
+        if e[1] == "x*star":
+            r = alg.zero
+            for k in range(len(x) + 1):
+                st = plus(a, x[k:], leafw, alg, memo)
+                if k == len(x):
+                    st = alg.add(alg.one, st)
+                r = alg.add(r, alg.mul(ev(a, x[:k], leafw, alg, memo), st))
+        elif e[1] == "plus+x":
+            r = alg.add(plus(a, x, leafw, alg, memo), ev(a, x, leafw, alg, memo))
+        else:
+            r = ev(a, x, leafw, alg, memo)
     elif t == "reverse":
         r = ev(e[1], x[::-1], leafw, alg, memo)
     elif t == "rename":
@@ -172,7 +196,7 @@ def leaves(e, acc):
         acc.append(e)
     else:
         for s in e[1:]:
-            if isinstance(s, list) and s and isinstance(s[0], str) and s[0] in ("leaf", "union", "concat", "star", "plus", "reverse", "rename", "lift", "from_string", "from_strings", "zero", "one"):
+            if isinstance(s, list) and s and isinstance(s[0], str) and s[0] in ("leaf", "union", "concat", "star", "plus", "reverse", "rename", "shared", "lift", "from_string", "from_strings", "zero", "one"):
                 leaves(s, acc)
     return acc
 
@@ -207,7 +231,9 @@ def gen_expr(rng, depth, syms, R):
         if k < 0.9:
             return ["from_strings", [[rng.choice(syms) for _ in range(rng.randint(0, 3))] for _ in range(rng.randint(1, 3))]]
         return [rng.choice(["zero", "one"])]
-    op = rng.choice(["union", "concat", "concat", "star", "plus", "reverse", "rename"])
+    op = rng.choice(["union", "concat", "concat", "star", "plus", "reverse", "rename", "shared"])
+    if op == "shared":
+        return ["shared", rng.choice(["x*star", "plus+x", "star;x"]), gen_expr(rng, depth - 1, syms, R)]
     if op in ("union", "concat"):
         return [op, gen_expr(rng, depth - 1, syms, R), gen_expr(rng, depth - 1, syms, R)]
     return [op, gen_expr(rng, depth - 1, syms, R)]
